@@ -3,7 +3,7 @@ VIEW View
 CONSTANTS
   Life = 5
   MaxGen = 3
-  Stream = FALSE
+  Stream = TRUE
   MaxDepth = 8
 CONSTRAINT DepthBound
 ACTION_CONSTRAINT EmitEdge
